@@ -458,6 +458,20 @@ class Path:
             if h.seq is not None:
                 self.assume(h.seq[idx] == self.box(v))
             return v
+        et = h.tag.get("elem")
+        if et:
+            test = {"bytes": PV.is_PBytes, "str": PV.is_PStr, "int": PV.is_PInt}.get(et)
+            if test is not None:
+                self.assume(z3.Implies(z3.And(idx >= 0, idx < z3.Length(h.seq)), test(h.seq[idx])))
+            if et == "digest":
+                self.assume(z3.Implies(z3.And(idx >= 0, idx < z3.Length(h.seq)),
+                                       z3.And(PV.is_PBytes(h.seq[idx]), z3.Length(PV.yval(h.seq[idx])) == 32)))
+            if et in ("bytes", "digest"):
+                return VBytes(PV.yval(h.seq[idx]))
+            if et == "str":
+                return VStr(PV.sval(h.seq[idx]))
+            if et == "int":
+                return VInt(PV.ival(h.seq[idx]))
         return VBox(h.seq[idx])
 
     # -- dicts --------------------------------------------------------------------
